@@ -135,12 +135,39 @@ fn garbage(n: u64, len: usize) -> Vec<u8> {
     let mut r = Rng::new(0xBAD0 + n);
     r.bytes(len)
 }
+/// protobuf of the ed25519 "key" that is the neutral element of the curve (`01 00*31`): a small-order point, accepted by
+/// libp2p-identity as a public key; under it `(R, S) = (neutral, 0)` satisfies the verification equation for EVERY message
+fn weak_key() -> Vec<u8> {
+    let mut v = vec![0x08, 0x01, 0x12, 0x20, 0x01];
+    v.extend_from_slice(&[0u8; 31]);
+    v
+}
+fn weak_sig() -> Vec<u8> {
+    let mut v = vec![0x01];
+    v.extend_from_slice(&[0u8; 63]);
+    v
+}
+fn weak_peer() -> Option<PeerId> {
+    libp2p::identity::PublicKey::try_decode_protobuf(&weak_key()).ok().map(|k| k.to_peer_id())
+}
 fn peer_tok(s: &str) -> Option<PeerId> {
+    if s == "Q0" {
+        return weak_peer();
+    }
     tag(s, 'P').map(peer_p).or_else(|| tag(s, 'X').map(peer_x))
 }
 fn key_tok(s: &str) -> Option<Vec<u8>> {
     if let Some(i) = tag(s, 'K') {
         return Some(keypair(i).public().encode_protobuf());
+    }
+    if let Some(i) = tag(s, 'N') {
+        // non-canonical but decodable: the canonical protobuf followed by an unknown field (number 3, varint 0)
+        let mut v = keypair(i).public().encode_protobuf();
+        v.extend_from_slice(&[0x18, 0x00]);
+        return Some(v);
+    }
+    if s == "W0" {
+        return Some(weak_key());
     }
     let n = tag(s, 'G')?;
     Some(if n == 2 {
@@ -164,6 +191,9 @@ fn enc_tok(s: &str) -> Option<EncodedPeerId> {
 fn sig_tok(s: &str, signed: &F) -> Option<Vec<u8>> {
     if let Some(j) = tag(s, 'S') {
         return keypair(j).sign(&signed.signing_bytes()).ok();
+    }
+    if s == "W0" {
+        return Some(weak_sig());
     }
     let n = tag(s, 'G')?;
     Some(if n == 2 {
@@ -252,6 +282,20 @@ fn exec(line: &str) -> String {
                 let claimed = tag(ws[1], 'K').map(peer_p).unwrap_or_else(|| peer_p(0));
                 let q1 = f1.quote(key.clone(), sig.clone());
                 let q2 = f2.quote(key, sig);
+                Some(format!(
+                    "{} {} {}",
+                    q1.check_is_signed_by_claimed_peer(claimed),
+                    q2.check_is_signed_by_claimed_peer(claimed),
+                    q1.hash() == q2.hash()
+                ))
+            }
+            "kpair" => {
+                // one signature, one set of fields, two encodings of the key
+                let (f, _) = F::parse(&ws[4..])?;
+                let sig = sig_tok(ws[3], &f)?;
+                let claimed = tag(ws[1], 'K').or_else(|| tag(ws[1], 'N')).map(peer_p).unwrap_or_else(|| peer_p(0));
+                let q1 = f.quote(key_tok(ws[1])?, sig.clone());
+                let q2 = f.quote(key_tok(ws[2])?, sig);
                 Some(format!(
                     "{} {} {}",
                     q1.check_is_signed_by_claimed_peer(claimed),
